@@ -873,7 +873,13 @@ def check_value(p, cur, nxt, path, out):
                             return
         return
     if t == "seg":
-        return  # C18 decides the partition invariant; here only purity and reproducibility apply
+        # a segmentation builder has no choice set; what a neighbour may be is what C18 states: a
+        # partition of the board into orthogonally connected blocks
+        _, h, w = p[0], p[1], p[2]
+        v = c18_segment.check_partition(nxt, h, w)
+        if v is not None:
+            out.append(("C19/neighbour-outside-choice-set", f"{path}: segmentation value is not a valid partition of the {h}x{w} board: {v[1]}"))
+        return
     if t in ("list", "tuple"):
         want_type = list if t == "list" else tuple
         if type(nxt) is not want_type or len(nxt) != len(p[1]):
